@@ -10,9 +10,17 @@ def corpus():
     out = []
     if os.path.isdir(d):
         for f in sorted(os.listdir(d)):
-            with open(os.path.join(d, f), encoding='utf-8', newline='') as fh:
-                out.append(fh.read())
+            if f.endswith('.txt'):
+                with open(os.path.join(d, f), encoding='utf-8', newline='') as fh:
+                    out.append(fh.read())
     return out
+
+def corpus_cases():
+    import json
+    p = os.path.join(common.VERIF, 'corpus', 'C19', 'cases.json')
+    if not os.path.exists(p):
+        return []
+    return [(bool(t), o, path, list(m), list(pl), list(pc)) for t, o, path, m, pl, pc in json.load(open(p, encoding='utf-8'))]
 
 def main():
     chk = common.Check('C19')
@@ -39,7 +47,8 @@ def main():
     paths += [rng.choice(['', '/', '//', './', '../']) + '/'.join(rng.choice(['a', '.', '..', '', 'pl', 'LC_MESSAGES', 'x.po', '.po', 'b.c'])
                                                              for _ in range(rng.randint(1, 6))) for _ in range(2000 if big else 400)]
     product = list(G.check_product())
-    cases = [(False, None, p, m, [], []) for p in G.PATHS + G.GATED_PATHS for m in ([], ['pl'], ['de'], ['xx'])]
+    cases = corpus_cases()
+    cases += [(False, None, p, m, [], []) for p in G.PATHS + G.GATED_PATHS for m in ([], ['pl'], ['de'], ['xx'])]
     cases += product if (big or chk.broken) else rng.sample(product, 1500)
     cases += G.check_cases(rng, (30000 if big else 4000) * boost, T, gated=True)
 
@@ -97,6 +106,7 @@ def main():
         return False
     (sweep(dis_parse + names_in + small, C.prop_parse)
         or sweep(dis_fix + [s for s in names_in if C.ref_parse(s) is not None], C.prop_fix)
+        or sweep(lang_names, C.prop_name)
         or sweep(dis_cli + cli_values, C.prop_cli)
         or sweep(dis_cases + cases, C.prop_check))
     chk.evaluations += tried
